@@ -15,6 +15,7 @@ import (
 
 	"github.com/openebs/jiva/replica"
 	"github.com/openebs/jiva/types"
+	"github.com/openebs/jiva/util"
 	"github.com/openebs/sparse-tools/sparse"
 	"github.com/sirupsen/logrus"
 
@@ -87,6 +88,7 @@ func setup() {
 		logrus.SetOutput(logBuf)
 		logrus.SetLevel(logrus.WarnLevel)
 		logrus.StandardLogger().ExitFunc = func(code int) { panic(fatalExit{"logrus.Fatal: process would exit here"}) }
+		util.VerifNoSync = true // durability is engine C's subject, not this one's
 		go replica.CreateHoles()
 	})
 }
